@@ -1400,3 +1400,94 @@ def run_records_rule(ctx, rid, floor=3):
                    ci.mod.rel, reads[0].lineno if reads else fn.lineno)
     if n == 0:
         raise AnalysisError(f'{rid}: no sampler class found')
+
+
+def noise_loop_no_break_rule(ctx, rid, floor=2):
+    """Noise models: what one operation of a moment gets must not depend on which operations are listed before it."""
+    repo = ctx.repo
+    ctx.rule(rid, 'every operation of the moment is looked at: in the noise-model packages, a loop over the operations of a moment (`for op in moment` / `moment.operations` / the '
+             'operations argument) that appends to a result inside its body has no `break` - leaving the loop at an operation that gets no noise deprives the operations listed after '
+             'it of theirs, and a Moment lists equal contents in any order', floor=floor, style='MPT')
+    n = 0
+    for m in sorted(repo.modules.values(), key=lambda x: x.rel):
+        if not m.rel.startswith(('cirq-core/cirq/devices/', 'cirq-google/cirq_google/devices/', 'cirq-aqt/cirq_aqt/', 'cirq-pasqal/cirq_pasqal/', 'cirq-core/cirq/contrib/noise_models')) \
+                or m.rel.endswith('_test.py'):
+            continue
+        for fn in [f for f in ast.walk(m.tree) if isinstance(f, ast.FunctionDef)]:
+            if not (fn.name.startswith('noisy_') or fn.name in ('_noisy_moment', '_noisy_moments', '_noisy_operation')):
+                continue
+            k = 0
+            for lp in ast.walk(fn):
+                if not isinstance(lp, ast.For):
+                    continue
+                it = ast.unparse(lp.iter)
+                if not ('moment' in it or 'operations' in it):
+                    continue
+                grows = any(isinstance(c, ast.Call) and isinstance(c.func, ast.Attribute) and c.func.attr in ('append', 'extend') for c in ast.walk(lp)) or \
+                    any(isinstance(a, ast.AugAssign) for a in ast.walk(lp))
+                if not grows:
+                    continue
+                k += 1
+                n += 1
+                # breaks that belong to this loop (not to a nested one)
+                brk = []
+
+                def scan(stmts):
+                    for s_ in stmts:
+                        if isinstance(s_, ast.Break):
+                            brk.append(s_)
+                        elif isinstance(s_, (ast.For, ast.While, ast.FunctionDef)):
+                            continue
+                        else:
+                            for fld in ('body', 'orelse', 'finalbody', 'handlers'):
+                                sub = getattr(s_, fld, None)
+                                if isinstance(sub, list):
+                                    scan([x for x in sub if isinstance(x, ast.stmt)] + [y for x in sub if isinstance(x, ast.ExceptHandler) for y in x.body])
+                scan(lp.body)
+                ctx.ob(rid, f'{m.name}.{fn.name}:loop#{k}', not brk, '' if not brk else
+                       f'`break` at line {brk[0].lineno} leaves the loop over `{it[:30]}`: operations listed after that point get no noise, so two equal moments can be given different noise',
+                       m.rel, (brk[0].lineno if brk else lp.lineno))
+    if n == 0:
+        raise AnalysisError(f'{rid}: no accumulating loop over a moment found in the noise-model packages')
+
+
+def repeated_key_map_rule(ctx, rid, floor=1):
+    """A measurement key may be measured several times; a dictionary from key to *the* operation keeps only the last one."""
+    repo = ctx.repo
+    ctx.rule(rid, 'one key, many measurements: in the noise-model packages, a dictionary indexed by the measurement key of an operation (protocols.measurement_key_obj / _name of the '
+             'loop operation) that stores the operation itself accumulates (setdefault(...).append / a list value), never a plain `d[key] = op` - with a key measured twice the earlier '
+             'measurement would be replaced by the later one when the operations are put back', floor=floor, style='COH')
+    from ..flow import name_deps
+    KEYF = {'measurement_key_obj', 'measurement_key_name'}
+    n = 0
+    for m in sorted(repo.modules.values(), key=lambda x: x.rel):
+        if not m.rel.startswith(('cirq-core/cirq/devices/', 'cirq-google/cirq_google/devices/', 'cirq-aqt/cirq_aqt/', 'cirq-pasqal/cirq_pasqal/')) or m.rel.endswith('_test.py'):
+            continue
+        for fn in [f for f in ast.walk(m.tree) if isinstance(f, ast.FunctionDef)]:
+            if 'measurement_key' not in ast.unparse(fn):
+                continue
+            dep = name_deps(fn, {}, source_of=lambda x: {'KEY'} if isinstance(x, ast.Call) and (call_name(x) or '').split('.')[-1] in KEYF else None)
+            for lp in ast.walk(fn):
+                if not (isinstance(lp, ast.For) and isinstance(lp.target, ast.Name)):
+                    continue
+                opv = lp.target.id
+                for s_ in ast.walk(lp):
+                    # plain store d[key] = op
+                    if isinstance(s_, ast.Assign) and len(s_.targets) == 1 and isinstance(s_.targets[0], ast.Subscript) and isinstance(s_.targets[0].value, ast.Name):
+                        idx = s_.targets[0].slice
+                        keyed = any((isinstance(x, ast.Name) and 'KEY' in dep.get(x.id, set())) or (isinstance(x, ast.Call) and (call_name(x) or '').split('.')[-1] in KEYF) for x in ast.walk(idx))
+                        if keyed and isinstance(s_.value, ast.Name) and s_.value.id == opv:
+                            n += 1
+                            ctx.ob(rid, f'{m.name}.{fn.name}:{s_.targets[0].value.id}[key]', False,
+                                   f'`{ast.unparse(s_)}` keeps one operation per measurement key: a second measurement of the same key replaces the first', m.rel, s_.lineno)
+                    # accumulating store d.setdefault(key, []).append(op)
+                    if isinstance(s_, ast.Call) and isinstance(s_.func, ast.Attribute) and s_.func.attr == 'append' and isinstance(s_.func.value, ast.Call) \
+                            and isinstance(s_.func.value.func, ast.Attribute) and s_.func.value.func.attr == 'setdefault' and s_.args and isinstance(s_.args[0], ast.Name) and s_.args[0].id == opv:
+                        karg = s_.func.value.args[0] if s_.func.value.args else None
+                        keyed = karg is not None and any((isinstance(x, ast.Name) and 'KEY' in dep.get(x.id, set())) or (isinstance(x, ast.Call) and (call_name(x) or '').split('.')[-1] in KEYF)
+                                                         for x in ast.walk(karg))
+                        if keyed:
+                            n += 1
+                            ctx.ob(rid, f'{m.name}.{fn.name}:{ast.unparse(s_.func.value.func.value)}[key]', True, '', m.rel, s_.lineno)
+    if n == 0:
+        raise AnalysisError(f'{rid}: no per-key store of operations found in the noise-model packages')
